@@ -1081,6 +1081,9 @@ func (s *c03State) inprocLink(st c03Step) {
 		n.datadir + "/c03sentinel", "../crypto/../c03sentinel", "..∕c03sentinel", "c03sentinel", "", "../c03sentinel\x00", "@LEGIT", "@LEGIT/../../c03sentinel",
 	}
 	name := names[st.C%len(names)]
+	if st.B%3 == 0 {
+		name = "@LEGIT"
+	}
 	if own := n.pubs[s.keysAt:]; len(own) > 0 {
 		o := own[st.A%len(own)]
 		legit = strings.TrimSuffix(o.name, "_private.pem")
